@@ -87,12 +87,14 @@ def mc_plan(tier):
 def gen_plan(tier):
     """Configurations whose programs are replayed on the real code."""
     if tier == "quick":
-        return [dict(confs="ConfsQ", max_ev=3, max_t=3)]
+        return [dict(confs="ConfsQ", max_ev=3, max_t=3),
+                dict(confs="ConfsD", max_ev=3, max_t=2, max_lat=1, short="never", daemons=True)]
     return [dict(confs="ConfsA", max_ev=3, max_t=3, short="any"),
             dict(confs="ConfsB", max_ev=3, max_t=3, max_lat=1),
             dict(confs="ConfsC", max_ev=3, max_t=3, max_lat=1, short="never"),
             dict(confs="ConfsE", max_ev=3, max_t=3, max_lat=1),
-            dict(confs="ConfsI", max_ev=4, max_t=2)]
+            dict(confs="ConfsI", max_ev=4, max_t=2),
+            dict(confs="ConfsD", max_ev=3, max_t=3, max_lat=1, short="never", daemons=True)]
 
 
 def dev_job(dev):
@@ -627,7 +629,7 @@ def run(tier, seed, replay=None):
     t0 = time.time()
     n_rand = 380 if tier == "quick" else 4500
     for k in range(n_rand):
-        indep = k % 8 == 7
+        indep = k % 11 == 10
         p = random_prog(rng, k, independent=indep)
         opts = random_opts(rng, p, k)
         runner.execute(p, opts, "random")
